@@ -143,6 +143,10 @@ func (t *Queue[T]) Shutdown(optionalShutdownFlags ...ShutdownFlag) {
 				heap.Pop(&t.heap)
 			}
 		}
+
+		// wake up all pollers that are waiting for new elements, because there are more pollers than remaining elements
+		// at most, and the rest would wait forever (no elements can be added after the shutdown)
+		t.waitCond.Broadcast()
 	}
 	t.heapMutex.Unlock()
 }
